@@ -468,6 +468,7 @@ TIE_FILES = {   # tie file -> functions of pyerrors/obs.py it needs regenerated
     "Tie_jack.v": ["export_jackknife"],
     "Tie_drho.v": ["compute_drho_radicand"],
     "Tie_covdot.v": ["_reduce_deltas", "covariance_calc_gamma"],      # imports Tie_reduce: list that file first
+    "Tie_corr.v": ["corr_thin", "corr_reverse", "corr_roll", "corr_symmetric", "corr_anti_symmetric", "corr_add_corr", "corr_mul_corr"],
     "Tie_gamma.v": ["_expand_deltas", "_calc_gamma"],      # imports Tie_expand_deltas: list that file first
 }
 
@@ -497,16 +498,17 @@ def _tie_pycore(ctx, tie_files):
         for f in TIE_FILES[tf]:
             if f not in funcs:
                 funcs.append(f)
-    sigs = [sg for sg in t_pycore.SIGS if sg["coq"] in funcs]
     ctx.trusted.append("translate/t_pycore.py (Python subset -> Gallina, fail-closed) and the meaning it gives Python operations (coq/theories/Py/Prim.v); "
-                       "regenerated this run: " + ", ".join(funcs))
+                       "regenerated this run from pyerrors/obs.py / correlators.py: " + ", ".join(funcs))
     ok_all = True
     done = []
     # one generated file per function, so that an edit to one helper breaks only the ties that mention it
     with open(os.path.join(REPO, "pyerrors", "obs.py")) as fh:
         src = fh.read()
     try:
-        text, done = t_pycore.translate_source(src, only=funcs)
+        with open(os.path.join(REPO, "pyerrors", "correlators.py")) as fh:
+            corr_src = fh.read()
+        text, done = t_pycore.translate_source(src, only=funcs, sources={"correlators.py": corr_src})
     except t_pycore.TranslateError as e:
         ctx.obligation("T-pycore:translate obs.py", False, str(e))
         return False
@@ -522,5 +524,5 @@ def _tie_pycore(ctx, tie_files):
         shutil.copy(os.path.join(PROPS, tf), dst)
         ok, _, _ = ctx.compile_obligation("props/" + tf, dst)
         ok_all = ok_all and ok
-    ctx.notes.append("tie by translation: %s regenerated from obs.py and proved equal to the hand-written model (%s)" % (", ".join(funcs), ", ".join(tie_files)))
+    ctx.notes.append("tie by translation: %s regenerated from the source and proved equal to the hand-written model / to the property's closed form (%s)" % (", ".join(funcs), ", ".join(tie_files)))
     return ok_all
